@@ -104,6 +104,9 @@ func (c *ColArr[T]) DecodeColumn(r *Reader, rows int) error {
 	if err := c.Offsets.DecodeColumn(r, rows); err != nil {
 		return errors.Wrap(err, "read offsets")
 	}
+	if err := checkOffsets(c.Offsets); err != nil {
+		return errors.Wrap(err, "offsets")
+	}
 	var size int
 	if l := len(c.Offsets); l > 0 {
 		// Pick last offset as total size of "elements" column.
@@ -158,4 +161,17 @@ func (c *ColArr[T]) Result(column string) ResultColumn {
 // Results return Results containing single column.
 func (c *ColArr[T]) Results(column string) Results {
 	return Results{c.Result(column)}
+}
+
+// checkOffsets checks that offsets of Array or Map are monotonically
+// non-decreasing, i.e. that every row is a valid range of elements.
+func checkOffsets(offsets ColUInt64) error {
+	var prev uint64
+	for i, v := range offsets {
+		if v < prev {
+			return errors.Errorf("[%d]: offset %d is less than previous %d", i, v, prev)
+		}
+		prev = v
+	}
+	return nil
 }
